@@ -336,6 +336,7 @@ func runC12(c *Ctx, r *Rec) {
 			})
 		}
 		r.check(bad == "", "D4-rune-columns", "cdcn."+st.scanner.Obj().Name()+"/positions", c.pos(st.scanner.Obj().Pos()), "cursor, line and column are advanced by rune counts only", bad)
+		checkLocationBeforeUpdate(c, r, "D4-token-located-where-it-starts", info, st.scanner)
 		checkReceiverWrites(c, r, "D4-receiver-writes-persist", st.scanner)
 		checkReceiverWrites(c, r, "D4-receiver-writes-persist", parser)
 	}
@@ -1032,4 +1033,158 @@ func checkDiagnosticBuilders(c *Ctx, r *Rec, rule string) {
 	if len(fds) == 0 {
 		r.skip(rule, "cdcn/diagnostic-builders", "", "no method named FormatToken and no caller of one")
 	}
+}
+
+// checkReentrantMethodsKeepLocals: the methods of the recursive descent call one another in
+// cycles (a value contains a collection contains values ...).  A parser field that such a method
+// assigns is shared by all its activations: the inner activation overwrites what the outer one
+// is still working with.  Fields used with stack discipline through method calls (the push-back
+// stack, the token queue) are not assignments and are not meant here.
+func checkReentrantMethodsKeepLocals(c *Ctx, r *Rec, rule string, parser *types.Named) {
+	cg := c.sameTypeCallGraph(parser)
+	// methods on a cycle of the call graph
+	onCycle := map[string]bool{}
+	for name := range cg {
+		seen := map[string]bool{}
+		work := []string{}
+		for callee := range cg[name] {
+			work = append(work, callee)
+		}
+		for len(work) > 0 {
+			cur := work[len(work)-1]
+			work = work[:len(work)-1]
+			if cur == name {
+				onCycle[name] = true
+				break
+			}
+			if seen[cur] {
+				continue
+			}
+			seen[cur] = true
+			for callee := range cg[cur] {
+				work = append(work, callee)
+			}
+		}
+	}
+	st := structOf(parser)
+	if st == nil || len(onCycle) == 0 {
+		r.skip(rule, "cdcn."+parser.Obj().Name()+"/re-entrant-methods", "", "the parser has no methods that call one another in a cycle")
+		return
+	}
+	fw := c.fieldWrites()
+	n := 0
+	for i := 0; i < st.NumFields(); i++ {
+		f := st.Field(i)
+		construct := "cdcn." + parser.Obj().Name() + "." + f.Name()
+		bad := ""
+		for _, w := range fw[f.Origin()] {
+			if w.In != nil && w.In.Recv != nil && onCycle[w.In.Name.Name] && (w.How == "assigned" || strings.HasPrefix(w.How, "assigned")) {
+				bad = fmt.Sprintf("the field is %s in %s at %s, a method that can be entered again before it returns (a nested collection): the inner activation overwrites what the outer one is still using", w.How, w.In.Name.Name, c.pos(w.Pos))
+			}
+		}
+		if bad != "" {
+			n++
+			r.fail(rule, construct, c.pos(f.Pos()), bad)
+		}
+	}
+	if n == 0 {
+		var names []string
+		for m := range onCycle {
+			names = append(names, m)
+		}
+		sort.Strings(names)
+		r.ok(rule, "cdcn."+parser.Obj().Name()+"/re-entrant-methods", c.pos(parser.Obj().Pos()), fmt.Sprintf("%d methods lie on call cycles; none of them assigns a field of the parser", len(names)))
+	}
+}
+
+// checkLocationBeforeUpdate: a token carries the line and column at which it starts.  The method
+// that makes the token reads them from scanner fields; a method that calls it must not have
+// moved those fields on for the text of this very token before the call (the line counter
+// stepped for an end-of-line before the end-of-line token is emitted labels it with the next line).
+func checkLocationBeforeUpdate(c *Ctx, r *Rec, rule string, info *types.Info, scanner *types.Named) {
+	ms := c.methodsOf(scanner)
+	// the emitter: the method that calls Token().Make(line, position, ...)
+	var emit *ast.FuncDecl
+	locF := map[*types.Var]bool{}
+	for _, name := range sortedKeys(ms) {
+		fd := ms[name]
+		ast.Inspect(fd.Body, func(x ast.Node) bool {
+			rx, mname, call, ok := methodCall(x)
+			if !ok || mname != "Make" || len(call.Args) < 3 {
+				return true
+			}
+			if n := derefNamed(info.TypeOf(rx)); n == nil || !strings.HasPrefix(n.Obj().Name(), "Token") {
+				return true
+			}
+			emit = fd
+			for _, a := range call.Args[:2] {
+				ast.Inspect(resolveInit(info, fd, a), func(y ast.Node) bool {
+					if e, ok := y.(ast.Expr); ok {
+						if f := selectorField(info, e); f != nil {
+							locF[f] = true
+						}
+					}
+					return true
+				})
+			}
+			return true
+		})
+	}
+	construct := "cdcn." + scanner.Obj().Name() + "/token-location"
+	if emit == nil || len(locF) == 0 {
+		r.skip(rule, construct, "", "no scanner method makes a token from location fields of the scanner")
+		return
+	}
+	emitFn := c.funcOf(emit)
+	bad := ""
+	n := 0
+	for _, name := range sortedKeys(ms) {
+		fd := ms[name]
+		if fd == emit {
+			continue
+		}
+		var emits []*ast.CallExpr
+		inspectNoLit(fd.Body, func(x ast.Node) bool {
+			if call, ok := x.(*ast.CallExpr); ok {
+				if cf := calleeOf(info, call); cf != nil && emitFn != nil && cf.Origin() == emitFn.Origin() {
+					emits = append(emits, call)
+				}
+			}
+			return true
+		})
+		if len(emits) == 0 {
+			continue
+		}
+		g := newFG(info, fd.Body)
+		inspectNoLit(fd.Body, func(x ast.Node) bool {
+			var lhs []ast.Expr
+			switch st := x.(type) {
+			case *ast.AssignStmt:
+				lhs = st.Lhs
+			case *ast.IncDecStmt:
+				lhs = []ast.Expr{st.X}
+			default:
+				return true
+			}
+			for _, l := range lhs {
+				f := selectorField(info, l)
+				if f == nil || !locF[f] {
+					continue
+				}
+				n++
+				pt, ok := g.after(x)
+				if !ok {
+					continue
+				}
+				for _, em := range emits {
+					em := em
+					if reach, _ := g.exists(pathQuery{from: pt, goalNode: func(nd ast.Node) bool { return containsNode(nd, em) }}); reach && bad == "" {
+						bad = fmt.Sprintf("%s updates the location field %s at %s and emits a token afterwards at %s: the token is labelled with the location behind its text, not the one at which it starts", name, f.Name(), c.pos(x.Pos()), c.pos(em.Pos()))
+					}
+				}
+			}
+			return true
+		})
+	}
+	r.check(bad == "", rule, construct, c.pos(emit.Pos()), fmt.Sprintf("%d updates of the location fields, none of them on a path to the emission of a token in the same method", n), bad)
 }
